@@ -782,7 +782,12 @@ fn handle_backend_messages<R: TransportReceiverT>(
 
 					if let Some(mut range) = range {
 						// the range is exclusive so need to add one.
-						range.end += 1;
+						//
+						// NOTE: the ID is controlled by the remote peer and `u64::MAX` can't belong to a pending batch.
+						let Some(end) = range.end.checked_add(1) else {
+							return Err(InvalidRequestId::NotPendingRequest(range.end.to_string()).into());
+						};
+						range.end = end;
 						process_batch_response(&mut manager.lock(), batch, range)?;
 					} else if !got_notif {
 						return Err(EmptyBatchRequest.into());
